@@ -35,7 +35,12 @@ mod verif_c20_group {
     use super::*;
     use core::mem::ManuallyDrop;
 
-    type G = Vec<(Vec<u8>, f64)>;
+    /// Newtype key: `<[u8]>::contains` specialises to memchr (word-at-a-time pointer
+    /// tricks CBMC cannot digest); a newtype takes the generic PartialEq path.
+    #[derive(Clone, Copy, PartialEq)]
+    pub struct Key(u32);
+
+    type G = Vec<(Vec<Key>, f64)>;
 
     fn conf() -> f64 {
         let c: f64 = kani::any();
@@ -43,7 +48,7 @@ mod verif_c20_group {
         c
     }
 
-    fn has(v: &Vec<u8>, k: u8) -> bool {
+    fn has(v: &Vec<Key>, k: Key) -> bool {
         let mut i = 0;
         while i < v.len() {
             if v[i] == k {
@@ -54,7 +59,7 @@ mod verif_c20_group {
         false
     }
 
-    fn intersects(a: &Vec<u8>, b: &Vec<u8>) -> bool {
+    fn intersects(a: &Vec<Key>, b: &Vec<Key>) -> bool {
         let mut i = 0;
         while i < a.len() {
             if has(b, a[i]) {
@@ -65,7 +70,7 @@ mod verif_c20_group {
         false
     }
 
-    fn subset(a: &Vec<u8>, b: &Vec<u8>) -> bool {
+    fn subset(a: &Vec<Key>, b: &Vec<Key>) -> bool {
         let mut i = 0;
         while i < a.len() {
             if !has(b, a[i]) {
@@ -76,7 +81,7 @@ mod verif_c20_group {
         true
     }
 
-    fn same_vec(a: &Vec<u8>, b: &Vec<u8>) -> bool {
+    fn same_vec(a: &Vec<Key>, b: &Vec<Key>) -> bool {
         if a.len() != b.len() {
             return false;
         }
@@ -109,29 +114,40 @@ mod verif_c20_group {
     /// touches is structure): group i holds the keys {10i, 10i+1}; the candidate
     /// holds its own fresh key 99 plus key 10i+1 of every group i with hit[i].
     /// The candidate's confidence is symbolic in [0,1]; group confidences are concrete.
-    fn step(hit: &[bool]) {
-        let n = hit.len();
-        let mut before: G = Vec::new();
-        let mut keys: Vec<u8> = Vec::new();
-        keys.push(99);
+    /// group i holds the keys {10i, 10i+1} with confidence 0.2 + 0.1 i. Every Vec is
+    /// pre-sized so that neither the harness nor the slice ever reallocates (a
+    /// realloc'd buffer loses CBMC's constant propagation, see units/C20.toml).
+    fn layout(n: usize) -> G {
+        let mut g: G = Vec::with_capacity(8);
         let mut i = 0;
         while i < n {
-            let mut ks = Vec::new();
-            ks.push(10 * i as u8);
-            ks.push(10 * i as u8 + 1);
-            // group confidences: concrete and distinct (0.2, 0.3, 0.4, 0.5); the
-            // candidate's confidence is the symbolic quantity (any f64 in [0,1]) — a
-            // vector of symbolic floats moved by Vec::remove/extend did not finish
-            before.push((ks, 0.2 + 0.1 * i as f64));
+            let mut ks = Vec::with_capacity(16);
+            ks.push(Key(10 * i as u32));
+            ks.push(Key(10 * i as u32 + 1));
+            g.push((ks, 0.2 + 0.1 * i as f64));
+            i += 1;
+        }
+        g
+    }
+
+    fn step(hit: &[bool]) {
+        let n = hit.len();
+        let before = ManuallyDrop::new(layout(n));
+        let mut groups = ManuallyDrop::new(layout(n));
+        let mut keys: Vec<Key> = Vec::with_capacity(8);
+        let mut keys0: Vec<Key> = Vec::with_capacity(8);
+        keys.push(Key(99));
+        keys0.push(Key(99));
+        let mut i = 0;
+        while i < n {
             if hit[i] {
-                keys.push(10 * i as u8 + 1);
+                keys.push(Key(10 * i as u32 + 1));
+                keys0.push(Key(10 * i as u32 + 1));
             }
             i += 1;
         }
-        let before = ManuallyDrop::new(before);
-        let keys0 = ManuallyDrop::new(keys.clone());
+        let keys0 = ManuallyDrop::new(keys0);
         let c = conf();
-        let mut groups = ManuallyDrop::new((*before).clone());
         slice_merge(&mut groups, keys, &Cand { confidence: c });
         let after: &G = &groups;
 
@@ -212,7 +228,7 @@ mod verif_c20_group {
     macro_rules! group_harness {
         ($name:ident, $hit:expr) => {
             #[kani::proof]
-            #[kani::unwind(7)]
+            #[kani::unwind(18)]
             fn $name() {
                 step(&$hit);
                 kani::cover!(true, "COVER:reach");
